@@ -467,6 +467,9 @@ pub fn get_best_move_until_stop(
         })
         .unwrap_or(1);
 
+    // Never start deeper than the requested limit
+    let starting_depth = max_depth.map_or(starting_depth, |d| starting_depth.min(d.max(1)));
+
     for depth in starting_depth.. {
         let Some((best_move, best_score, is_only_move)) =
             get_best_move_entry(game.clone(), continue_running, depth, table, &mut history)
@@ -499,7 +502,7 @@ pub fn get_best_move_until_stop(
         println!();
 
         // If mate can be forced, or there is only a single move available, stop searching
-        if max_depth.is_some_and(|d| d == depth)
+        if max_depth.is_some_and(|d| d <= depth)
             || is_only_move
             || best_score > Score::MAX - 1000
             || best_score < Score::MIN + 1000
